@@ -59,3 +59,274 @@ Proof.
   intros n. unfold inherited, sourced. rewrite dedup_In.
   destruct inherited_sourcings as [_ [H _]]. rewrite H. tauto.
 Qed.
+
+(* ------------------------------------------------------------------ accumulation *)
+Definition srcvals (v : var) (l : list (N * prog)) : value :=
+  concat (map (fun e => valof (own_value v (snd e))) l).
+
+Lemma srcvals_app v a b : srcvals v (a ++ b) = srcvals v a ++ srcvals v b.
+Proof. unfold srcvals. rewrite map_app, concat_app. reflexivity. Qed.
+
+Lemma srcvals_single v n b : srcvals v [(n, b)] = valof (own_value v b).
+Proof. unfold srcvals. cbn. apply app_nil_r. Qed.
+
+Definition mk (ls : list cell) (g : option value) (a : value) : st :=
+  {| locals := ls; glob := g; acc := a |}.
+
+(* the last eclass of an inherit line leaves its value in inherit()'s frame *)
+Fixpoint last_cell (v : var) (es : ecls) (c : option value) : option value :=
+  match es with ENil => c | ECons _ b r => last_cell v r (own_value v b) end.
+
+Lemma accumulate_top c ls g a :
+  accumulate (mk (Some c :: ls) g a) = mk (Some c :: ls) g (a ++ valof c).
+Proof.
+  unfold accumulate, mk; cbn. destruct (valof c) eqn:E; cbn.
+  - rewrite app_nil_r. reflexivity.
+  - reflexivity.
+Qed.
+
+(* inside an eclass (innermost frame bound), code that never unsets v only touches that frame *)
+Lemma exec_in_frame v :
+  (forall o c ls g a, clean_op v o = true ->
+     exec_op v true o (mk (Some c :: ls) g a)
+     = mk (Some (step v c o) :: ls) g (a ++ srcvals v (sourcings_op o))) /\
+  (forall p c ls g a, clean_prog v p = true ->
+     exec_prog v true p (mk (Some c :: ls) g a)
+     = mk (Some (own_replay v p c) :: ls) g (a ++ srcvals v (sourcings p))) /\
+  (forall es c ls g a, clean_ecls v es = true ->
+     exec_ecls v true es (mk (Some c :: ls) g a)
+     = mk (Some (last_cell v es c) :: ls) g (a ++ srcvals v (sourcings_ecls es))).
+Proof.
+  apply op_prog_ecls_ind.
+  - (* Assign *) intros w x c ls g a _. cbn. destruct (N.eqb w v); cbn; rewrite app_nil_r; reflexivity.
+  - (* Append *) intros w x c ls g a _. cbn. destruct (N.eqb w v); cbn; rewrite app_nil_r; [|reflexivity].
+    unfold do_append, do_assign, mk; cbn. destruct c; reflexivity.
+  - (* Unset *) intros w c ls g a H. cbn in *. destruct (N.eqb w v); [discriminate|].
+    rewrite app_nil_r. reflexivity.
+  - (* DefPhase *) intros f c ls g a _. cbn. rewrite app_nil_r. reflexivity.
+  - (* Inherit *) intros es IH c ls g a H. cbn in H. cbn [exec_op step sourcings_op].
+    unfold push; cbn [locals glob acc mk].
+    change {| locals := Some None :: Some c :: ls; glob := g; acc := a |}
+      with (mk (Some None :: Some c :: ls) g a).
+    rewrite (IH None (Some c :: ls) g a H). reflexivity.
+  - (* PNil *) intros c ls g a _. cbn. rewrite app_nil_r. reflexivity.
+  - (* PCons *) intros o IHo p IHp c ls g a H. cbn in H. apply andb_true_iff in H as [H1 H2].
+    cbn [exec_prog own_replay sourcings]. rewrite (IHo c ls g a H1), (IHp _ ls g _ H2).
+    rewrite srcvals_app, app_assoc. reflexivity.
+  - (* ENil *) intros c ls g a _. cbn. rewrite app_nil_r. reflexivity.
+  - (* ECons *) intros n b IHb r IHr c ls g a H. cbn in H. apply andb_true_iff in H as [H1 H2].
+    cbn [exec_ecls last_cell sourcings_ecls].
+    replace (do_unset_here (mk (Some c :: ls) g a)) with (mk (Some None :: ls) g a) by reflexivity.
+    rewrite (IHb None ls g a H1). fold (own_value v b).
+    rewrite accumulate_top, (IHr _ ls g _ H2).
+    rewrite !srcvals_app, srcvals_single, <- !app_assoc. reflexivity.
+Qed.
+
+(* at ebuild level (no frame) the ebuild's statements act on the global, each inherit line
+   adds the values of the sourcings below it *)
+Lemma exec_ebuild v : forall p g a, no_eclass_unset v p = true ->
+  exec_prog v true p (mk [] g a) = mk [] (own_replay v p g) (a ++ srcvals v (sourcings p)).
+Proof.
+  induction p as [|o p IH]; intros g a H.
+  - cbn. rewrite app_nil_r. reflexivity.
+  - cbn [exec_prog own_replay sourcings]. destruct o as [w x|w x|w|f|es]; cbn in H.
+    + cbn [exec_op step sourcings_op]. destruct (N.eqb w v); cbn; apply IH; assumption.
+    + cbn [exec_op step sourcings_op]. destruct (N.eqb w v); cbn; [|apply IH; assumption].
+      unfold do_append, do_assign; cbn. destruct g; cbn; apply IH; assumption.
+    + cbn [exec_op step sourcings_op]. destruct (N.eqb w v); cbn; apply IH; assumption.
+    + cbn. apply IH; assumption.
+    + apply andb_true_iff in H as [H1 H2]. cbn [exec_op step sourcings_op].
+      replace (push (mk [] g a)) with (mk [Some None] g a) by reflexivity.
+      destruct (exec_in_frame v) as [_ [_ E]]. rewrite (E es None [] g a H1).
+      replace (pop (mk [Some (last_cell v es None)] g (a ++ srcvals v (sourcings_ecls es))))
+        with (mk [] g (a ++ srcvals v (sourcings_ecls es))) by reflexivity.
+      rewrite (IH g _ H2), srcvals_app, app_assoc. reflexivity.
+Qed.
+
+(* variables that inherit() does not localise: plain last-writer over the whole execution *)
+Lemma exec_flat v :
+  (forall o g a, exec_op v false o (mk [] g a) = mk [] (fold_left (step v) (flatten_op o) g) a) /\
+  (forall p g a, exec_prog v false p (mk [] g a) = mk [] (fold_left (step v) (flatten p) g) a) /\
+  (forall es g a, exec_ecls v false es (mk [] g a) = mk [] (fold_left (step v) (flatten_ecls es) g) a).
+Proof.
+  apply op_prog_ecls_ind.
+  - intros w x g a. cbn. destruct (N.eqb w v); reflexivity.
+  - intros w x g a. cbn. destruct (N.eqb w v); [|reflexivity].
+    unfold do_append, do_assign; cbn. destruct g; reflexivity.
+  - intros w g a. cbn. destruct (N.eqb w v); reflexivity.
+  - intros f g a. reflexivity.
+  - intros es IH g a. cbn. apply IH.
+  - intros g a. reflexivity.
+  - intros o IHo p IHp g a. cbn. rewrite IHo, IHp, fold_left_app. reflexivity.
+  - intros g a. reflexivity.
+  - intros n b IHb r IHr g a. cbn. rewrite IHb, IHr, fold_left_app. reflexivity.
+Qed.
+
+(* ---- the EAPI tables agree with the statement (re-checked against today's eapi.py/ebuild.bash) *)
+Definition eapis_upto9 : list N := [0;1;2;3;4;5;6;7;8;9]%N.
+Lemma le9_in eapi : (eapi <= 9)%N -> In eapi eapis_upto9.
+Proof.
+  intros H. unfold eapis_upto9.
+  destruct eapi as [|p]; [left; reflexivity|].
+  do 10 (destruct p as [p|p|]; try (exfalso; lia); try (cbn; tauto)).
+Qed.
+
+Lemma table_accum_pr : forall eapi, (eapi <= 9)%N -> accum_pr eapi = N.leb 8 eapi.
+Proof.
+  intros eapi H. apply le9_in in H. revert eapi H. apply Forall_forall.
+  repeat constructor.
+Qed.
+
+Lemma table_rdepend_default : forall eapi, (eapi <= 9)%N -> rdepend_default eapi = N.leb eapi 3.
+Proof.
+  intros eapi H. apply le9_in in H. revert eapi H. apply Forall_forall.
+  repeat constructor.
+Qed.
+
+Lemma localised_pms eapi v : (eapi <= 9)%N -> localised eapi v = pms_accumulated eapi v.
+Proof. intros H. unfold localised, pms_accumulated. rewrite table_accum_pr by assumption. reflexivity. Qed.
+
+Lemma run_var_loc eapi v p : localised eapi v = true -> no_eclass_unset v p = true ->
+  run_var eapi v p = mk [] (own_value v p) (srcvals v (sourcings p)).
+Proof.
+  intros L H. unfold run_var. rewrite L. change st0 with (mk [] None []).
+  rewrite exec_ebuild by assumption. reflexivity.
+Qed.
+
+Lemma accumulates_proof : forall eapi v p,
+  (eapi <= 9)%N -> pms_accumulated eapi v = true -> known_class eapi v p = false ->
+  final_value eapi v p = spec_accumulated eapi v p.
+Proof.
+  intros eapi v p He Hacc Hk.
+  unfold known_class in Hk. apply orb_false_iff in Hk as [Hk1 Hk2].
+  apply negb_false_iff in Hk1.
+  assert (L : localised eapi v = true) by (rewrite localised_pms; assumption).
+  unfold final_value, spec_accumulated. rewrite L.
+  unfold own_final. rewrite (run_var_loc eapi v p L Hk1). cbn [glob acc mk].
+  fold (srcvals v (sourcings p)). f_equal.
+  unfold ebuild_value. rewrite table_rdepend_default by assumption.
+  destruct (N.eqb v vRDEPEND) eqn:Ev; cbn [andb]; [|reflexivity].
+  apply N.eqb_eq in Ev. subst v.
+  destruct (N.leb eapi 3) eqn:E3; [|reflexivity].
+  cbn in Hk2. apply negb_false_iff in Hk2.
+  destruct (own_value vRDEPEND p); [reflexivity|].
+  rewrite (run_var_loc eapi vDEPEND p); [reflexivity | | assumption].
+  rewrite localised_pms by assumption. reflexivity.
+Qed.
+
+Lemma others_final_proof : forall eapi v p,
+  (eapi <= 9)%N -> pms_accumulated eapi v = false ->
+  final_value eapi v p = spec_final v p.
+Proof.
+  intros eapi v p He Hacc.
+  assert (L : localised eapi v = false) by (rewrite localised_pms; assumption).
+  unfold final_value, spec_final, own_final, run_var. rewrite L.
+  assert (N.eqb v vRDEPEND = false) as ->.
+  { unfold pms_accumulated in Hacc. apply orb_false_iff in Hacc as [H _].
+    apply N.ltb_ge in H. apply N.eqb_neq. unfold vRDEPEND. lia. }
+  cbn [andb]. change st0 with (mk [] None []).
+  destruct (exec_flat v) as [_ [E _]]. rewrite E. reflexivity.
+Qed.
+
+(* whole metadata dict *)
+Lemma metadata_spec_proof : forall eapi p,
+  (eapi <= 9)%N ->
+  (forall v, In v (metadata_keys eapi) -> pms_accumulated eapi v = true -> known_class eapi v p = false) ->
+  metadata eapi p =
+  filter (fun kv => negb (is_nil (snd kv))) (map (fun v => (v, spec_value eapi v p)) (metadata_keys eapi)).
+Proof.
+  intros eapi p He H. unfold metadata. f_equal. apply map_ext_in. intros v Hv.
+  f_equal. unfold spec_value. destruct (pms_accumulated eapi v) eqn:E.
+  - apply accumulates_proof; auto.
+  - apply others_final_proof; auto.
+Qed.
+
+(* ---- the full statement is false of the faithful model: an eclass that unsets *)
+Definition accumulates_full_statement : Prop := forall eapi v p,
+  (eapi <= 9)%N -> pms_accumulated eapi v = true -> final_value eapi v p = spec_accumulated eapi v p.
+
+(* EAPI 7:  ebuild: DEPEND="1"; inherit a      a: DEPEND="5"; inherit b      b: unset DEPEND *)
+Definition witness_dup : prog :=
+  mkprog [A vDEPEND [1%N]; I (mkecls [(1%N, mkprog [A vDEPEND [5%N]; I (mkecls [(2%N, mkprog [U vDEPEND])])])])].
+(* EAPI 0:  ebuild: DEPEND="1"; inherit a b    a: unset DEPEND   b: IUSE="9"   -> RDEPEND loses 1 *)
+Definition witness_loss : prog :=
+  mkprog [A vDEPEND [1%N]; I (mkecls [(1%N, mkprog [U vDEPEND]); (2%N, mkprog [A vIUSE [9%N]])])].
+
+Example witness_dup_values :
+  final_value 7 vDEPEND witness_dup = [1;5;5]%N /\ spec_accumulated 7 vDEPEND witness_dup = [1;5]%N.
+Proof. split; vm_compute; reflexivity. Qed.
+Example witness_loss_values :
+  final_value 0 vRDEPEND witness_loss = [] /\ spec_accumulated 0 vRDEPEND witness_loss = [1]%N
+  /\ final_value 0 vDEPEND witness_loss = [1]%N.
+Proof. repeat split; vm_compute; reflexivity. Qed.
+
+Lemma accumulates_refuted_proof : ~ accumulates_full_statement.
+Proof.
+  intros H. specialize (H 7%N vDEPEND witness_dup).
+  assert (E : final_value 7 vDEPEND witness_dup = spec_accumulated 7 vDEPEND witness_dup).
+  { apply H; [lia | reflexivity]. }
+  vm_compute in E. discriminate E.
+Qed.
+
+(* non-vacuity: a program with nested inherits, values before and after inherit, outside the class *)
+Definition sample : prog :=
+  mkprog [A vIUSE [1%N]; I (mkecls [(1%N, mkprog [A vIUSE [2%N]; I (mkecls [(2%N, mkprog [A vIUSE [3%N]; A vRESTRICT [7%N]])]);
+                                                   P vIUSE [4%N]; A vRESTRICT [8%N]])]);
+          P vIUSE [5%N]; A vRESTRICT [9%N]; U vPDEPEND].
+Example sample_ok :
+  known_class 8 vIUSE sample = false /\ final_value 8 vIUSE sample = [1;5;3;2;4]%N
+  /\ final_value 8 vRESTRICT sample = [9;7;8]%N /\ final_value 7 vRESTRICT sample = [9]%N.
+Proof. repeat split; vm_compute; reflexivity. Qed.
+
+(* ------------------------------------------------------------------ DEFINED_PHASES *)
+Lemma funcs_flatten f :
+  (forall o, In f (funcs_op o) <-> In (DefPhase f) (flatten_op o)) /\
+  (forall p, In f (funcs_prog p) <-> In (DefPhase f) (flatten p)) /\
+  (forall es, In f (funcs_ecls es) <-> In (DefPhase f) (flatten_ecls es)).
+Proof.
+  apply op_prog_ecls_ind; cbn; intros; try tauto.
+  - split; [tauto | intros [H|[]]; discriminate].
+  - split; [tauto | intros [H|[]]; discriminate].
+  - split; [tauto | intros [H|[]]; discriminate].
+  - split; [intros [H|[]]; left; congruence | intros [H|[]]; left; congruence].
+  - rewrite !in_app_iff. tauto.
+  - rewrite !in_app_iff. tauto.
+Qed.
+
+Lemma mem_str_In f l : mem_str f l = true <-> In f l.
+Proof.
+  unfold mem_str. rewrite existsb_exists. split.
+  - intros [g [Hg E]]. apply str_eqb_eq in E. subst. exact Hg.
+  - intros H. exists f. split; [exact H | apply str_eqb_refl].
+Qed.
+
+Lemma defined_phases_exact_proof : forall eapi p,
+  (forall s, In s (defined_phases eapi p) <-> exists f, In (s, f) (phases eapi) /\ defines f p)
+  /\ (defined_phases eapi p = [] -> defined_phases_key eapi p = [dash])
+  /\ (defined_phases eapi p <> [] -> defined_phases_key eapi p = defined_phases eapi p).
+Proof.
+  intros eapi p. split; [|split].
+  - intros s. unfold defined_phases, defines. rewrite in_map_iff. split.
+    + intros [[s' f] [E H]]. cbn in E. subst s'. apply filter_In in H as [H1 H2]. cbn in H2.
+      exists f. split; [exact H1|]. apply mem_str_In in H2.
+      destruct (funcs_flatten f) as [_ [F _]]. apply F. exact H2.
+    + intros [f [H1 H2]]. exists (s, f). split; [reflexivity|]. apply filter_In. split; [exact H1|].
+      cbn. apply mem_str_In. destruct (funcs_flatten f) as [_ [F _]]. apply F. exact H2.
+  - intros H. unfold defined_phases_key. rewrite H. reflexivity.
+  - intros H. unfold defined_phases_key. destruct (defined_phases eapi p); [contradiction|reflexivity].
+Qed.
+
+(* table facts used to read the theorem: short names are distinct, none is "-" (checked for
+   the regenerated table) *)
+Fixpoint nodup_strb (l : list str) : bool :=
+  match l with [] => true | x :: r => negb (mem_str x r) && nodup_strb r end.
+Lemma phases_table_wf :
+  forallb (fun e => nodup_strb (map fst (phases e)) && nodup_strb (map snd (phases e))
+                    && negb (mem_str dash (map fst (phases e)))) eapis_upto9 = true.
+Proof. vm_compute. reflexivity. Qed.
+
+Example phases_example :
+  defined_phases_key 1 (mkprog [F [115;114;99;95;99;111;110;102;105;103;117;114;101]%N]) = [dash]
+  /\ defined_phases_key 2 (mkprog [F [115;114;99;95;99;111;110;102;105;103;117;114;101]%N])
+     = [[99;111;110;102;105;103;117;114;101]%N].
+Proof. split; vm_compute; reflexivity. Qed.
